@@ -73,6 +73,7 @@ OBLIGATIONS = {
     "near_pole_point": "a point with |lat| = 89.9 was converted",
     "negative_height": "a point below the ellipsoid was converted",
     "point_is_base": "the base's own local coordinates were checked",
+    "converted_then_edited_in_place": "a GeoCoords / ECEFCoords object was converted, moved in place with setX/Y/Z and converted again",
     "base_object_reused": "one base object (Geo and ECEF form) was handed to several conversions and checked to still denote the base afterwards",
     "southern_base": "a base in the southern hemisphere was used",
     "l93_anchor": "the Lambert-93 false origin was checked",
@@ -198,6 +199,32 @@ def check_ecef(case, ctx):
     if st != "ok" or not geo_ok(g2, p):
         ctx.violation("ECEFCoords.toGeoCoords/round-trip-exceeds-tolerance", case, {"got": g2})
         return
+    # ---- the same conversions on objects that have a history: converted once somewhere else, then moved in place
+    # (setX / setY / setZ) to the point under test.  What a conversion returns depends on the current coordinates only.
+    q = (p[0] / 2.0 + 10.0, -p[1] / 2.0, 250.0)          # another valid position
+
+    def edited():
+        g0 = GeoCoords(*q)
+        g0.toECEFCoords()
+        g0.toENUCoords(GeoCoords(*q))
+        g0.setX(p[0]); g0.setY(p[1]); g0.setZ(p[2])
+        e0 = ECEFCoords(*ref_ecef(*q))
+        e0.toGeoCoords()
+        e0.setX(exp[0]); e0.setY(exp[1]); e0.setZ(exp[2])
+        return _xyz(g0.toECEFCoords()), _xyz(e0.toGeoCoords())
+    st, r2 = guard(edited)
+    if st != "ok":
+        ctx.violation("conversion-after-in-place-edit/" + ("does-not-return" if st == "hang" else "raises"), case, r2)
+        return
+    if not max(abs(a - b) for a, b in zip(r2[0], exp)) <= TOL_ECEF:
+        ctx.violation("GeoCoords.toECEFCoords/after-in-place-edit/disagrees-with-wgs84-closed-form", case,
+                      {"got": r2[0], "expected": exp, "converted_before_as": q})
+        return
+    if not geo_ok(r2[1], p):
+        ctx.violation("ECEFCoords.toGeoCoords/after-in-place-edit/round-trip-exceeds-tolerance", case,
+                      {"got": r2[1], "expected": p})
+        return
+    ctx.oblige("converted_then_edited_in_place")
     d, m = geo_err(g, p)
     ctx.outcome(("ecef", d > 1e-12, m > 1e-6))
 
